@@ -195,6 +195,11 @@ def calls(ck, name, family, scale=1, shards=NCPU, timeout=3000, spec="TraceCalls
         ck.add_tlc(res)
         if res.distinct != n:
             raise ToolError("trace %s: %d lines but TLC consumed %d" % (f, n, res.distinct))
+        for d in res.tagged("DRIFT"):
+            if len(ck.drift) < 50:
+                ev = read_ndjson_line(f, d["line"])
+                ck.drift.append({"why": d["why"], "ctx": (ev.get("ctx") or read_ndjson_line(f, ev["c"])["ctx"]),
+                                 "hay": ev.get("hay"), "s": ev.get("s"), "e": ev.get("e")})
         for r in res.tagged("REJECT"):
             nrej += 1
             if len(ck.violations) + len(ck.known_hits) > 200:
